@@ -191,6 +191,16 @@ def family_retry0():
         steps += [{"op": "sleep", "ms": 30}, {"op": "release", "n": 1}, {"op": "wait_outcomes", "n": 2, "ms": 2000}]
         steps += submits([(4, 0), (5, 0)]) + [{"op": "wait_outcomes", "n": 5, "ms": 3000}, {"op": "close"}]
         out.append(sc("retry0-" + kind, "retry0", cfg, steps, pl))
+    # one partition, retries disabled, batching: request 1 (messages 1,2) is refused while message 3 already waits in the
+    # worker's next, incomplete batch; the partition moves on to a fresh worker with 4,5 - 3 must not be overtaken
+    for kind in ("retry", "fatal"):
+        for freq in (400, 1500):
+            cfg = dict(retryMax=0, leaders=[1], nbrokers=1, flushMsgs=2, flushFreqMs=freq, backoffMs=30)
+            pl = {"1": {"hold": True, "part": {"0": kind}}}
+            steps = submits([(1, 0), (2, 0)]) + [{"op": "wait_req", "n": 1, "ms": 1500}] + submits([(3, 0)])
+            steps += [{"op": "sleep", "ms": 40}, {"op": "release", "n": 1}, {"op": "wait_outcomes", "n": 2, "ms": 2000}]
+            steps += submits([(4, 0), (5, 0)]) + [{"op": "must_outcomes", "n": 5, "ms": 4000}, {"op": "close"}]
+            out.append(sc("retry0-single-%s-f%d" % (kind, freq), "retry0", cfg, steps, pl))
     return out
 
 
@@ -416,6 +426,20 @@ def family_idem_clean():
                                  {"op": "wait_outcomes", "n": 4, "ms": 3000}]
     steps += submits([(5, 0), (6, 1)]) + [{"op": "wait_outcomes", "n": 6, "ms": 3000}, {"op": "close"}]
     out.append(sc("idemclean-bump-parked", "idem_clean", cfg, steps, pl, gates))
+    # a fresh message is parked during a retry phase (so it is sequenced when the retry buffer is flushed, not on arrival)
+    # and then fails on its own (its encoder fails): the failure of a sequenced message must restart the numbering, the
+    # following messages must be accepted
+    cfg = dict(idem=True, retryMax=2, leaders=[1], nbrokers=1, backoffMs=10)
+    gates = [{"name": "fin_at_bp", "point": "bp.recv", "flags": "fin", "retries": -1, "part": -1, "hwm": -1},
+             {"name": "parked", "point": "pp.recv", "flags": "none", "retries": 0, "part": -1, "hwm": 1}]
+    pl = {"1": {"hold": True, "part": {"0": "retry"}}}
+    steps = submits([(1, 0)]) + [{"op": "wait_req", "n": 1, "ms": 2000}] + submits([(2, 0)]) + [{"op": "sleep", "ms": 30}]
+    steps += [{"op": "release", "n": 1}, {"op": "wait_gate", "name": "fin_at_bp"},
+              {"op": "submit", "id": 3, "part": 0, "badenc": True}, {"op": "wait_gate", "name": "parked"},
+              {"op": "release_gate", "name": "parked"}, {"op": "sleep", "ms": 15}, {"op": "release_gate", "name": "fin_at_bp"},
+              {"op": "wait_outcomes", "n": 3, "ms": 3000}]
+    steps += submits([(4, 0)]) + [{"op": "wait_outcomes", "n": 4, "ms": 3000}] + submits([(5, 0)]) + [{"op": "must_outcomes", "n": 5, "ms": 3000}, {"op": "close"}]
+    out.append(sc("idemclean-parked-badenc", "idem_clean", cfg, steps, pl, gates))
     return out
 
 
